@@ -551,6 +551,10 @@ func (s *Lexer) getNextToken() (*Token, error) {
 	switch current_state {
 	case SERROR:
 		token.TokenType = ERROR
+	case SSTRING_S_ESCAPE:
+		fallthrough
+	case SSTRING_D_ESCAPE:
+		fallthrough
 	case SSTRING_SINGLE:
 		fallthrough
 	case SSTRING_DOUBLE:
@@ -692,6 +696,8 @@ func (s *Lexer) getNextToken() (*Token, error) {
 		token.TokenType = DEQUAL
 	case SNEQUAL:
 		token.TokenType = NEQUAL
+	case SEXCL:
+		fallthrough
 	case SCOLON:
 		token.TokenType = ERROR
 	case SBLOCKCOMMENT:
@@ -702,6 +708,8 @@ func (s *Lexer) getNextToken() (*Token, error) {
 		unendingBlockComment = true
 		token.TokenType = ERROR
 	case SBLOCKCOMMENTFINAL:
+		fallthrough
+	case SCOMMENTSTART:
 		fallthrough
 	case SCOMMENT:
 		token.TokenType = COMMENT
